@@ -468,8 +468,10 @@ _BIN = {ast.Add: operator.add, ast.Sub: operator.sub, ast.Mult: operator.mul,
 _RAISES = (ValueError, TypeError, AttributeError, KeyError, IndexError,
            ZeroDivisionError)
 
+import re as _re
+
 _ATTR_OK = (str, list, dict, tuple, set, NdArray, Namespace, NpBool, NpInt,
-            NpFloat, bytes)
+            NpFloat, bytes, _re.Pattern, _re.Match)
 
 
 class Func:
@@ -967,6 +969,26 @@ class ClassModel(Namespace):
             raise AnalysisError(f"model: decorator of {self._name}.{attr}")
         return func if inst is None else _bind(func, inst)
 
+    def _init_default(self, attr):
+        """(found, value) of an instance attribute that ``__init__`` sets
+        from an expression that does not depend on its arguments (empty
+        containers, constants) – the model instances are created without
+        running ``__init__``"""
+        init = self._methods.get("__init__")
+        if init is None:
+            return False, None
+        for n in ast.walk(init):
+            if isinstance(n, ast.Assign) and any(
+                    isinstance(t, ast.Attribute) and t.attr == attr
+                    and isinstance(t.value, ast.Name)
+                    and t.value.id == "self" for t in n.targets):
+                try:
+                    return True, self._interp.ev(n.value, {}, self._globs,
+                                                 None)
+                except AnalysisError:
+                    return False, None
+        return False, None
+
     def model_getattr(self, attr):
         if attr in self.__dict__ and not attr.startswith("_") or \
                 attr == "__dict__" and "__dict__" in self.__dict__:
@@ -1023,6 +1045,10 @@ class InstanceModel(Namespace):
             return self.__dict__["_cls"]
         r = self.__dict__["_cls"]._resolve(attr, inst=self)
         if r is None:
+            found, val = self.__dict__["_cls"]._init_default(attr)
+            if found:
+                self.__dict__[attr] = val
+                return val
             if self.__dict__["_cls"].__dict__.get("strict_instances"):
                 raise AnalysisError(
                     f"model: {self._name} attribute `{attr}` is not "
@@ -1031,3 +1057,29 @@ class InstanceModel(Namespace):
                 "AttributeError",
                 f"{self._name} has no attribute {attr}")
         return r.v if isinstance(r, _Value) else r
+
+
+def module_level(tree, globs, interp, assigns=True):
+    """Make the module-level helpers of the analysed file available to the
+    interpreted code: every module-level function is interpreted by
+    definition when called; simple module-level assignments (constants,
+    namedtuple classes) are evaluated, those that cannot be are skipped."""
+    import collections
+    globs.setdefault("namedtuple", collections.namedtuple)
+    globs.setdefault("collections", Namespace(
+        "collections", namedtuple=collections.namedtuple,
+        OrderedDict=collections.OrderedDict))
+    for st in tree.body:
+        if isinstance(st, ast.FunctionDef) and st.name not in globs:
+            globs[st.name] = Func(st, globs, interp)
+    if not assigns:
+        return
+    for st in tree.body:
+        if isinstance(st, ast.Assign) and len(st.targets) == 1 \
+                and isinstance(st.targets[0], ast.Name) \
+                and st.targets[0].id not in globs:
+            try:
+                globs[st.targets[0].id] = interp.ev(st.value, None, globs,
+                                                    None)
+            except (AnalysisError, ModelRaise):
+                pass
